@@ -45,3 +45,148 @@ void vf_harness(void) { const byte* d; int n; String r = encodeBase64(d, n); VF_
 )
 
 UNITS = [encodeBase64]
+
+# ---------------------------------------------------------------------------------------------
+# SHA-1 (src/SHA1.cpp).  transform() as a whole is beyond CBMC (DESIGN 2): the round macros are proved against one
+# FIPS 180-4 step each, the order of the 80 macro invocations is checked syntactically, update() is proved against a
+# byte-stream specification with transform() as a logging stub.
+SH = 'src/SHA1.cpp'
+import re as _re
+from vf import core as _core
+
+sha_macros = Unit(
+    'SHA1_round_macros', 'C15',
+    cuts=[Cut('rol', SH, r'^#define rol\(value, bits\)', kind='define'), Cut('blk0', SH, r'^#define blk0\(i\) \(block->l\[i\] = \(rol', kind='define'),
+          Cut('blk', SH, r'^#define blk\(i\)', kind='define'),
+          Cut('R0', SH, r'^#define R0\(', kind='define'), Cut('R1', SH, r'^#define R1\(', kind='define'), Cut('R2', SH, r'^#define R2\(', kind='define'),
+          Cut('R3', SH, r'^#define R3\(', kind='define'), Cut('R4', SH, r'^#define R4\(', kind='define')],
+    text=r'''
+#include "vf_base.h"
+#include "sha1.h"
+@@rol@@
+@@blk0@@
+@@blk@@
+@@R0@@
+@@R1@@
+@@R2@@
+@@R3@@
+@@R4@@
+union Char64Int16 { byte c[64]; uint32_t l[16]; };
+uint32_t nondet_u32(void); int nondet_int(void);
+void vf_harness(void) {
+  union Char64Int16 blockv, old; union Char64Int16* block = &blockv;
+  for (int i = 0; i < 16; i++) blockv.l[i] = nondet_u32();
+  old = blockv;
+  uint32_t a = nondet_u32(), b = nondet_u32(), c = nondet_u32(), d = nondet_u32(), e = nondet_u32();
+  uint32_t a0 = a, b0 = b, c0 = c, d0 = d, e0 = e;
+  int t = nondet_int(); __CPROVER_assume(0 <= t && t < 80);
+  uint32_t w;   /* W_t of FIPS 6.1.2 step 1, with the 16-word circular buffer of 6.1.3 */
+  if (t < 16) w = SPEC_BE32(old.c, t);                                     /* M_t: big-endian word t of the block */
+  else w = SPEC_ROTL(old.l[(t + 13) & 15] ^ old.l[(t + 8) & 15] ^ old.l[(t + 2) & 15] ^ old.l[t & 15], 1);   /* ROTL1(W[t-3]^W[t-8]^W[t-14]^W[t-16]) */
+  if (t < 16) { R0(a, b, c, d, e, t); } else if (t < 20) { R1(a, b, c, d, e, t); } else if (t < 40) { R2(a, b, c, d, e, t); }
+  else if (t < 60) { R3(a, b, c, d, e, t); } else { R4(a, b, c, d, e, t); }
+  /* the macro updates (v,w,x,y,z) in place: z becomes T, w becomes ROTL30(w); the rotation of roles is done by the caller's argument order */
+  __CPROVER_assert(e == SPEC_T(t, a0, b0, c0, d0, e0, w), "round macro computes T = ROTL5(a) + f_t(b,c,d) + e + K_t + W_t (FIPS 180-4 6.1.2 step 3)");
+  __CPROVER_assert(b == SPEC_ROTL(b0, 30) && a == a0 && c == c0 && d == d0, "round macro: b becomes ROTL30(b), a, c, d unchanged");
+  __CPROVER_assert(blockv.l[t & 15] == w, "message schedule word W_t is stored in the circular buffer");
+  VF_CANARY();
+}
+''',
+    entry=None, unwind=17, floor=3, expect=['assertion'],
+    desc='each SHA-1 round macro R0..R4 (+ blk0, blk, rol) for EVERY state, block and step t in 0..79 is one step of FIPS 180-4 6.1.2 (Ch/Parity/Maj, K_t, W_t schedule, big-endian word load)',
+    functions=['SHA1 R0..R4, blk0, blk, rol'],
+    planted=[('R3', r'\(\(\(w\|x\)&y\)\|\(w&x\)\)', '(((w|x)&y)|(w&y))'), ('blk', r'\(i\+8\)&15', '(i+7)&15')],
+)
+
+SHA_STATE = r'''
+typedef struct SHA1 { uint32_t state[5]; int count[2]; byte buffer[64]; } SHA1;
+'''
+sha_update = Unit(
+    'SHA1_update', 'C15',
+    cuts=[Cut('upd', SH, r'^void SHA1::update\(const byte\* data, int len\)\s*$', members=('count', 'buffer'), methods={'transform': 'SHA1_transform'},
+              loops=[(r'for\s*\(\s*;', 0, '''
+  __CPROVER_assigns(i, g_calls, g_logged)
+  __CPROVER_loop_invariant(64 - J0 <= i && i <= len && (i - (64 - J0)) % 64 == 0 && g_calls == 1 + (i - (64 - J0)) / 64)
+  __CPROVER_loop_invariant(g_blk < g_calls ==> g_logged[g_b] == STREAM(64 * g_blk + g_b))
+  __CPROVER_decreases(len - i)
+''')])],
+    text=r'''
+#include "vf_libc_loops.h"
+#include "vf_base.h"
+#include <stdint.h>
+''' + SHA_STATE + r'''
+/* ghost: transform() is a stub that logs its g_blk-th 64-byte argument; g_b is an arbitrary byte index in it */
+int g_calls, g_blk, g_b; byte g_logged[64];
+int J0; const byte* g_data; byte g_oldbuf[64];
+/* the byte stream seen so far in this block: the J0 bytes already buffered, then data */
+#define STREAM(k) ((k) < J0 ? g_oldbuf[k] : g_data[(k) - J0])
+static void SHA1_transform(SHA1* self, const byte* buf) {
+  __CPROVER_assert(__CPROVER_r_ok(buf, 64), "transform reads 64 bytes");
+  if (g_calls == g_blk) { for (int q = 0; q < 64; q++) g_logged[q] = buf[q]; }
+  g_calls++;
+}
+void SHA1_update(SHA1* self, const byte* data, int len)
+__CPROVER_requires(__CPROVER_is_fresh(self, sizeof(SHA1)) && 0 <= len && len <= NMAX && __CPROVER_is_fresh(data, len > 0 ? len : 1))
+__CPROVER_requires(self->count[0] >= 0 && self->count[0] <= 0x3fffffff && self->count[1] >= 0 && self->count[1] < 1000)   /* < 128 MiB hashed so far */
+__CPROVER_requires(g_calls == 0 && J0 == ((self->count[0] >> 3) & 63) && g_data == data && 0 <= g_blk && 0 <= g_b && g_b < 64)
+__CPROVER_requires(g_oldbuf[g_b] == self->buffer[g_b])
+/* FIPS 180-4 5.2.1 / 6.1.2: the message is consumed in consecutive 64-byte blocks */
+__CPROVER_ensures(g_calls == (J0 + len) / 64)
+__CPROVER_ensures(g_blk < g_calls ==> g_logged[g_b] == STREAM(64 * g_blk + g_b))
+__CPROVER_ensures(g_b < (J0 + len) % 64 ==> self->buffer[g_b] == STREAM(64 * ((J0 + len) / 64) + g_b))
+__CPROVER_ensures(self->count[0] == __CPROVER_old(self->count[0]) + 8 * len && self->count[1] == __CPROVER_old(self->count[1]))
+__CPROVER_assigns(self->count, self->buffer, g_calls, g_logged)
+@@upd@@
+void vf_harness(void) { SHA1* s; const byte* d; int n; SHA1_update(s, d, n); VF_CANARY(); }
+''',
+    entry='SHA1_update', variants={'': ['-DNMAX=100000']}, unwind=65, timeout=600,
+    desc='SHA1::update(data,len) with transform() as a logging stub: exactly floor((buffered+len)/64) blocks are transformed, the k-th is bytes [64k,64k+64) of '
+         '(buffered bytes ++ data), the rest stays in the buffer, bit count advances by 8*len; no access outside data[0..len) / buffer[0..64)',
+    functions=['SHA1::update'],
+    trusted=['SHA1::transform replaced by a logging stub (its rounds: unit SHA1_round_macros + schedule pattern check)'],
+    assumes=['SHA-1 bit counter: fewer than 128 MiB hashed (count[0] is a signed int; larger totals overflow it)'],
+    planted=[('upd', r'i \+ 63 < len', 'i + 64 < len')],
+)
+UNITS += [sha_macros, sha_update]
+
+
+def extra_checks(work, tier):
+    """syntactic composition check: the 80 statements of transform() are R?(v,w,x,y,z,t) with the roles rotating as FIPS 6.1.2 step 3 prescribes"""
+    import time
+    t0 = time.time()
+    out = {'name': 'SHA1_transform_schedule_pattern', 'kind': 'proof', 'back_end': 'syntactic pattern (not solver-discharged)', 'functions': ['SHA1::transform (composition)'],
+           'obligations': 0, 'discharged': 0, 'failures': [], 'detail': '80 round-macro invocations in transform(): macro by range of t, arguments rotate (a,b,c,d,e)->(e,a,b,c,d), '
+           'state load before, state[i] += after; the composition of 80 proved steps is by this pattern, not by the solver'}
+    try:
+        body = _core.strip_comments(Cut('tr', SH, r'^void SHA1::transform\(const byte buf\[64\]\)\s*$').raw())
+    except _core.Undecided as e:
+        out['undecided'] = str(e)
+        return [out]
+    calls = _re.findall(r'\b(R[0-4])\(\s*(\w)\s*,\s*(\w)\s*,\s*(\w)\s*,\s*(\w)\s*,\s*(\w)\s*,\s*(\d+)\s*\)\s*;', body)
+    names = 'abcde'
+    checks = []
+    checks.append(('80 round invocations', len(calls) == 80))
+    okseq = True
+    for t, c in enumerate(calls[:80]):
+        macro = 'R0' if t < 16 else 'R1' if t < 20 else 'R2' if t < 40 else 'R3' if t < 60 else 'R4'
+        rot = [names[(k - t) % 5] for k in range(5)]
+        if c[0] != macro or list(c[1:6]) != rot or int(c[6]) != t:
+            okseq = False
+            checks.append(('step %d is %s(%s,%d)' % (t, macro, ','.join(rot), t), False))
+            break
+    checks.append(('macro and argument rotation of every step', okseq))
+    checks.append(('state loaded into a..e', all(_re.search(r'\b%s = self->state\[%d\]|\b%s = state\[%d\]' % (n, i, n, i), body) for i, n in enumerate(names))))
+    checks.append(('state[i] += a..e', all(_re.search(r'state\[%d\] \+= %s;' % (i, n), body) for i, n in enumerate(names))))
+    checks.append(('block copied from the argument', bool(_re.search(r'memcpy\(block, buf, 64\)', body))))
+    # nothing else touches a..e / block between the rounds
+    inner = body[body.find('R0('):body.rfind(');', 0, body.find('state[0] +=')) + 2]
+    residue = _re.sub(r'\bR[0-4]\([^;]*\);', '', inner).strip()
+    checks.append(('no other statement among the 80 rounds', residue == ''))
+    out['obligations'] = len(checks)
+    out['discharged'] = len([c for c in checks if c[1]])
+    for name, ok in checks:
+        if not ok:
+            out['failures'].append({'id': 'SHA1_transform.schedule_pattern: ' + name, 'detail': 'pattern check failed on the text of SHA1::transform'})
+    out['samples'] = [{'unit': 'SHA1_transform_schedule_pattern', 'checks': [c[0] for c in checks]}]
+    out['wall_s'] = time.time() - t0
+    return [out]
